@@ -109,9 +109,14 @@ type RunOutcome struct {
 	Dir       string
 }
 
+// execSeq makes sandbox directories unique per execution: a run that leaks an open file
+// must not be visible (through /proc/self/fd) to a later replay of the same run index.
+var execSeq int
+
 // RunOne executes one run of a check.
 func RunOne(t *testing.T, c *Check, conf string, seed uint64, run int, replay []uint32, tmp string, keepTrace bool) *RunOutcome {
-	dir := filepath.Join(tmp, fmt.Sprintf("run-%d-%d", os.Getpid(), run))
+	execSeq++
+	dir := filepath.Join(tmp, fmt.Sprintf("run-%d-%d-%d", os.Getpid(), run, execSeq))
 	os.RemoveAll(dir)
 	os.MkdirAll(dir, 0755)
 	env := &Env{Conf: conf, Dir: dir, Run: run, Replay: replay != nil}
